@@ -156,6 +156,49 @@ func c05cRun(t *testing.T, w *vWorld, id int, injectAt int64, corrupt bool) (cal
 	return
 }
 
+// c05cCatchup: B's device entry and two announcements of B addressed to A - one whose ciphertext does not open, one
+// genuine, in the given order - are in A's replica either before A activates (the catch-up pass registers what the
+// log holds) or arrive after the activation (the live handler). A must hold B's chain key in the end.
+func c05cCatchup(w *vWorld, id int, alteredFirst bool, live bool) bool {
+	g := vDetGroup(w.seed, fmt.Sprintf("c05cu-%d", id))
+	dA, dB := w.newDevice("A", fmt.Sprintf("u%d", id)), w.newDevice("B", fmt.Sprintf("u%d", id))
+	gcA, gcB := dA.open(g), dB.open(g)
+	defer func() { _ = gcA.Close(); _ = gcB.Close() }()
+	_, err := gcB.MetadataStore().AddDeviceToGroup(w.ctx)
+	vmust(err)
+	genuine, err := gcB.secretStore.GetShareableChainKey(w.ctx, g, gcA.MemberPubKey())
+	vmust(err)
+	altered := append([]byte(nil), genuine...)
+	altered[len(altered)/2] ^= 0x40
+	payloads := [][]byte{genuine, altered}
+	if alteredFirst {
+		payloads = [][]byte{altered, genuine}
+	}
+	for _, p := range payloads {
+		_, err := MetadataStoreSendSecret(w.ctx, gcB.MetadataStore(), g, gcB.ownMemberDevice, gcA.MemberPubKey(), p)
+		vmust(err)
+	}
+	if !live {
+		w.deliver(gcA.MetadataStore(), logHashes(gcB.MetadataStore()))
+	}
+	vmust(gcA.ActivateGroupContext(nil))
+	if live {
+		w.deliver(gcA.MetadataStore(), logHashes(gcB.MetadataStore()))
+	}
+	gpk, _ := g.GetPubKey()
+	deadline := time.Now().Add(30 * time.Second)
+	for {
+		if gcA.secretStore.IsChainKeyKnownForDevice(w.ctx, gpk, gcB.DevicePubKey()) {
+			return true
+		}
+		if !live || time.Now().After(deadline) {
+			// the catch-up pass is synchronous: what it did not register, nothing will
+			return false
+		}
+		time.Sleep(2 * time.Millisecond)
+	}
+}
+
 func TestVerifC05c(t *testing.T) {
 	rep := vrep.New("C05")
 	defer func() {
@@ -208,6 +251,19 @@ func TestVerifC05c(t *testing.T) {
 			rep.Violation("C05/member-joining-after-refused-announcement-gets-no-chain-key", fmt.Sprintf("A handles an announcement addressed to it whose ciphertext is garbage (refused), then member D's device entry arrives: A publishes no chain-key announcement for D within 60s (C's arrival point %d)", k), c05cCase{k})
 		} else if !toC || !toB {
 			rep.Violation("C05/member-gets-no-chain-key", fmt.Sprintf("with a refused announcement in the log: announced to C=%v, to B=%v", toC, toB), c05cCase{k})
+		}
+	}
+	// an announcement that does not open next to the genuine one of the same sender, in both orders, found by the
+	// catch-up pass of the activation or handled live
+	for _, alteredFirst := range []bool{true, false} {
+		for _, live := range []bool{false, true} {
+			id++
+			known := c05cCatchup(w, id, alteredFirst, live)
+			rep.Eval(fmt.Sprintf("altered-and-genuine-announcement/altered-first=%v/live=%v/chain-key-held=%v", alteredFirst, live, known))
+			rep.AddTransitions(1)
+			if !known {
+				rep.Violation("C05/genuine-announcement-shadowed-by-an-altered-one", fmt.Sprintf("B's log holds an announcement for A that does not open and the genuine one (altered first: %v); A receives them %s: A does not hold B's chain key", alteredFirst, map[bool]string{false: "before its activation (catch-up pass)", true: "after its activation (live handler)"}[live]), map[string]interface{}{"altered_first": alteredFirst, "live": live})
+			}
 		}
 	}
 	rep.AddStates(int64(len(points)))
